@@ -97,6 +97,14 @@ CLAIMED.update({
             'and receiver threads sequential.', '5 C18'),
 })
 
+CLAIMED.update({
+    'C12': ('proof', 'upload_buffer framing (every byte once, frames <= 31 bytes), write_flash retry/abort for every pattern of lost / stray / '
+            'negative replies over the 6 attempts, _internal_flash against the contracts of both (refusal before anything is sent, pages in '
+            'range and below the flash size, exact page content) and end-to-end on a ghost target.',
+            'Image lengths / geometries enumerated or small-symbolic (bounded, stated per contract; for-loop invariants are not supported by '
+            'the engine); peer load-buffer / write-flash semantics assumed; little-endian host.', '5 C12'),
+})
+
 NOT_APPLICABLE = {
     'C09': 'convergence/accuracy of an external iterative least-squares solver on vectorised floating-point numpy code; no '
            'contract within reach of the available verifiers expresses or decides it (DESIGN.md section 5 C09)',
